@@ -29,13 +29,13 @@ for d in sorted(glob.glob(f"{ROOT}/seeded/C*-*")):
     rows.append((name, status, ", ".join(sorted(set(keys))[:3]), (meta.get("summary") or "")[:110].replace("\n", " ").replace("|", "/")))
     print(name, status, keys[:2], flush=True)
 res = f"{ROOT}/seeded/RESULTS.md"
-old = {}
-if os.path.exists(res):
-    for l in open(res):
-        m = re.match(r"\| (C\d+-\d+) \|", l)
-        if m: old[m.group(1)] = l
-for r in rows:
-    old[r[0]] = f"| {r[0]} | {r[1]} | {r[2]} | {r[3]} |\n"
+# the table is rebuilt from every meta.json (so a partial run keeps the other rows)
 with open(res, "w") as f:
     f.write("# Seeded changes vs checks (quick tier, VERIF_SEED=1)\n\n| seed | status | violation keys (first 3) | change |\n|---|---|---|---|\n")
-    for k in sorted(old): f.write(old[k])
+    for d in sorted(glob.glob(f"{ROOT}/seeded/C*-*")):
+        name = os.path.basename(d)
+        try: meta = json.load(open(f"{d}/meta.json"))
+        except Exception: continue
+        det = meta.get("detection") or {}
+        summ = (meta.get("summary") or meta.get("description") or "")[:110].replace("\n", " ").replace("|", "/")
+        f.write(f"| {name} | {det.get('status', 'not-run')} | {', '.join(det.get('keys', [])[:3])} | {summ} |\n")
